@@ -130,7 +130,7 @@ json refusal(Rng &r, const std::vector<OptRef> &refs, int cl)
 					continue;
 				s["op"] = "rmsec";
 				{
-					static const char *badidx[] = {"=77", "=1st", "=0x", "=2.0", "=-1", "= 1", "=1 "};
+					static const char *badidx[] = {"=77", "=1st", "=0x", "=2.0", "=-1", "=1 ", "=1e0"};
 					s["name"] = ref.decl["n"].get<std::string>() + ((fl & F_TITLE) ? "=no-such-title" : badidx[r.below(7)]);
 				}
 				break;
